@@ -98,6 +98,13 @@ Fixpoint holes_of_sx (l : list sx) : option (list (option val)) :=
   | _ => None
   end.
 
+Fixpoint stages_of_sx (l : list sx) : option (list (list (option val))) :=
+  match l with
+  | [] => Some []
+  | SL hs :: r => match holes_of_sx hs, stages_of_sx r with Some h, Some t => Some (h :: t) | _, _ => None end
+  | _ => None
+  end.
+
 Definition form_of_sx (x : sx) : option form :=
   match x with
   | SL (SS t :: rest) =>
@@ -105,6 +112,12 @@ Definition form_of_sx (x : sx) : option form :=
       if is_tag "each" t then option_map FEach (vals_of_sx rest) else
       if is_tag "over" t then option_map FOver (vals_of_sx rest) else
       if is_tag "at" t then option_map FAt (vals_of_sx rest) else
+      if is_tag "staged" t then option_map FStaged (stages_of_sx rest) else
+      if is_tag "stagedeach" t then
+        match rest with
+        | SL sts :: vs => match stages_of_sx sts, vals_of_sx vs with Some a, Some b => Some (FStagedEach a b) | _, _ => None end
+        | _ => None
+        end else
       if is_tag "proj" t then
         match rest with
         | SL hs :: xs => match holes_of_sx hs, vals_of_sx xs with Some h, Some v => Some (FProj h v) | _, _ => None end
@@ -145,6 +158,7 @@ Definition sx_of_entry (e : entry) : sx :=
   | EPy c => SL [sx_w "py"; SZ (pid c); SL (map sx_of_pname (params c))]
   | ERaw c => SL [sx_w "raw"; SZ (pid c); SL (map sx_of_pname (params c))]
   | EKfn k => SL [sx_w "kfn"; SZ (kid k); sx_nat (karity k)]
+  | ELam it n k w => SL [sx_w "lam"; SZ (iid it); sx_nat n; sx_bool k; sx_bool w]
   end.
 
 Definition sx_of_readback (b : readback) : sx :=
@@ -220,6 +234,14 @@ Fixpoint sig_of_sx (l : list sx) : option (list iparam) :=
   | _ => None
   end.
 
+(* bind n in the outermost (global) frame *)
+Fixpoint add_global (c : ctx) (n : Z) (e : entry) : ctx :=
+  match c with
+  | [] => [[(n, e)]]
+  | [f] => [(n, e) :: f]
+  | f :: r => f :: add_global r n e
+  end.
+
 Definition dispatch (x : sx) : sx :=
   match x with
   | SL (SS t :: rest) =>
@@ -234,6 +256,22 @@ Definition dispatch (x : sx) : sx :=
             | _, _ => sx_err "form"
             end
         | _ => sx_err "form"
+        end
+      else if is_tag "iform" t then
+        match rest with
+        | [SL (SS _ :: frames); SL [SS _; SZ i; SZ dec; SL ps]; SZ n; f] =>
+            match frames_of_sx frames, sig_of_sx ps, form_of_sx f with
+            | Some c, Some sg, Some fm =>
+                match register import_follows_wrapped (mkItem i sg (Z.eqb dec 1)) with
+                | Some e =>
+                    let st := mkState (add_global c n e) [] in
+                    let '(st', r) := run_form the_flags st n fm in
+                    SL [sx_w "ok"; sx_of_entry e; sx_of_res r; sx_of_log (log st')]
+                | None => SL [sx_w "unregistered"]
+                end
+            | _, _, _ => sx_err "iform"
+            end
+        | _ => sx_err "iform"
         end
       else if is_tag "import" t then
         match rest with
